@@ -325,7 +325,10 @@ def _parse_metadata(metadata_str):
     metadata = {}
     for key, val in metadata_regex.findall(metadata_str):
         key = key.lower()
-        val = val.strip().strip("'").strip('"').lstrip('{').rstrip('}')
+        val = val.strip()
+        # remove only the enclosing pair of text delimiters
+        if len(val) >= 2 and val[0] + val[-1] in ('{}', "''", '""'):
+            val = val[1:-1]
         if key not in metadata:
             if key == 'tag':
                 val = [val]  # tag value is always a list
